@@ -363,3 +363,7 @@ mod tests {
         }
     }
 }
+
+#[cfg(cberner_raptorq_verif)]
+#[path = "/verif/hooks/octet_hooks.rs"]
+pub(crate) mod verif_hooks;
